@@ -382,6 +382,10 @@ func (l *irLoader) loadSyntaxRule(group *ir.RuleGroup, resultProto goRule, filte
 			nodetag.CompositeLit,
 			nodetag.ReturnStmt,
 		}
+	case nodetag.DeclList:
+		dstTags = []nodetag.Value{
+			nodetag.File,
+		}
 	default:
 		dstTags = []nodetag.Value{tag}
 	}
